@@ -421,7 +421,8 @@ func checkC16(c CaseC16, info *Info) *Failure {
 			return failf("maps-string-mismatch", "Maps.JsonString(%v) = %q, per-Map encoding %q", safe, sj, j1)
 		}
 		si, _ := ms.JsonStringIndent(c.Prefix, c.Ind, safe)
-		if si != string(ji)+"\n"+string(ji)+"\n"+string(ji) {
+		// the library separates the indented documents by a newline; the property's wording ("concatenation") also allows none
+		if si != string(ji)+"\n"+string(ji)+"\n"+string(ji) && si != string(ji)+string(ji)+string(ji) {
 			return failf("maps-string-mismatch", "Maps.JsonStringIndent(%v) = %q, per-Map encoding %q", safe, si, ji)
 		}
 		fn := filepath.Join(scratch, "c16.json")
